@@ -15,7 +15,7 @@ pub fn def() -> PropDef {
         nontrivial,
         functional: true,
         post: super::no_post,
-        rule: "histories of 2-50 executions of generated programs (biased to list / string concatenation and macros over context variables, with values aliased between variables; 0-60% of the executions of a history end in an error raised at depth 1-8; regular-expression matches with two distinct patterns per history) against one context: after every execution the context's variables and every value returned earlier are re-read and must be unchanged, and the program is executed a second time and must return an equal result; the same histories are then executed by the separate celconc binary with 4 (quick) / 16 (thorough) threads x 20 / 200 rounds sharing &Program and a root &Context through inner scopes, every execution compared with the sequential result; celconc also carries the compile-time Send + Sync assertions for Program, Context, Value, ExecutionError; non-trivial = the history contains a concatenation or a macro; distinct = distinct (context, history)",
+        rule: "histories of 2-50 executions of generated programs (biased to list / string concatenation and macros over context variables, with values aliased between variables; 0-60% of the executions of a history end in an error raised at depth 1-8; regular-expression matches with two distinct patterns per history) against one context: after every execution the context's variables and every value returned earlier are re-read and must be unchanged, and the program is executed a second time and must return an equal result; the same histories are then executed by the separate celconc binary with 4 (quick) / 16 (thorough) threads x 20 / 200 rounds sharing &Program and a root &Context through inner scopes, every execution compared with the sequential result; celconc first runs a fixed host-function phase (a lazily resolving function re-entered from its own argument, and a function that panics on one argument, executed by all threads side by side: every other execution must still yield what it yields alone, and none may hang); celconc also carries the compile-time Send + Sync assertions for Program, Context, Value, ExecutionError; non-trivial = the history contains a concatenation or a macro; distinct = distinct (context, history)",
         exhaustive_note: "random sample of histories; thread interleavings are whatever the scheduler produces",
     }
 }
